@@ -64,3 +64,30 @@ func VH_C29_store(nops int) {
 		}
 	}
 }
+
+// VH_C29_concurrent_store(bound): two goroutines use the store concurrently
+// (pre-emptive interleavings, context bound `bound`): one stores under two keys
+// and deletes the first, the other stores under a key of its own and reads it
+// back. Afterwards the store holds exactly what a sequential execution leaves.
+func VH_C29_concurrent_store(bound int) {
+	ts := NewTransactionStore()
+	k1, k2, k3 := vNondetU16("k1"), vNondetU16("k2"), vNondetU16("k3")
+	vAssume(vAnd(k1 != k2, vAnd(k1 != k3, k2 != k3)))
+	a, b, c := vNewTx(1), vNewTx(2), vNewTx(3)
+	d1, d2 := false, false
+	var readBack Transaction
+	var readOK bool
+	vPreempt(bound)
+	vGo(func() { ts.Store(k1, a); ts.Store(k2, b); ts.Delete(k1); d1 = true })
+	vGo(func() { ts.Store(k3, c); readBack, readOK = ts.Get(k3); d2 = true })
+	vRunUntilIdle()
+	vPreempt(0)
+	vAssume(vAnd(d1, d2))
+	vReach("C29.concurrent_store_done")
+	vAssert(vAnd(readOK, readBack == Transaction(c)), "C29.concurrent_own_key_visible")
+	_, ok1 := ts.Get(k1)
+	t2, ok2 := ts.Get(k2)
+	t3, ok3 := ts.Get(k3)
+	vAssert(vAnd(!ok1, vAnd(vAnd(ok2, t2 == Transaction(b)), vAnd(ok3, t3 == Transaction(c)))), "C29.concurrent_final_content")
+	vAssert(vRaces() == 0, "C29.concurrent_race_free")
+}
